@@ -261,6 +261,7 @@ func (u *Unit) verifyFunction(known []KnownFinding, prop string) {
 	fn, ct := u.Fn, u.Contract
 	st := &State{cells: map[*Cell]Val{}, heaps: map[string]Term{}, ghostCalled: map[string]Term{}}
 	st.alloc = u.fresh("alloc0", "Int")
+	alloc0 := st.alloc
 	u.assume(tTrue, app("Bool", ">", st.alloc, intLit(0)))
 	fr := u.newFrame(fn, nil)
 	fr.top = true
@@ -346,11 +347,13 @@ func (u *Unit) verifyFunction(known []KnownFinding, prop string) {
 		}
 		bindResults(penv, rv, resNames)
 		u.curWhere = ""
+		u.scopeBlk = r.blk
 		for k, en := range ct.Ensures {
-			f := u.evalBool(en.Expr, penv)
+			f := u.evalClause(en.Expr, penv)
 			o := u.oblige("post", r.reach, f, "post", fmt.Sprint(k), en.Src)
 			_ = o
 		}
+		u.checkFrame(ct, r, alloc0)
 		u.retReach = append(u.retReach, r.reach)
 	}
 	// assert@call clauses that never matched a call are failures of the contract
@@ -439,6 +442,13 @@ func (u *Unit) queryText(o *Obligation, extra []string, goal string) string {
 	var b strings.Builder
 	b.WriteString("(set-option :produce-models true)\n(set-logic ALL)\n")
 	b.WriteString(prelude)
+	var cds []string
+	constArrDecls.Range(func(k, v interface{}) bool { cds = append(cds, v.(string)); return true })
+	sort.Strings(cds)
+	for _, d := range cds {
+		b.WriteString(d)
+		b.WriteString("\n")
+	}
 	for _, d := range u.decls {
 		b.WriteString(d)
 		b.WriteString("\n")
@@ -520,8 +530,14 @@ func discharge(u *Unit, o *Obligation, workDir string, timeout int, known []Know
 					break
 				}
 				// ... and one retry at 6x the timeout before anything is reported
-				o.Result = runQuery(workDir, o.Name+".retry", q, timeout*6, true)
-				o.Retried = true
+				// (skipped once several obligations have already failed: the run reports violations anyway)
+				if failedSoFar.Load() < 4 {
+					o.Result = runQuery(workDir, o.Name+".retry", q, timeout*6, true)
+					o.Retried = true
+				}
+				if o.Result.Status != "unsat" {
+					failedSoFar.Add(1)
+				}
 			}
 		}
 	}
